@@ -12,29 +12,155 @@ NOTE = ("Trusted: Lean 4.33 kernel (axioms audited per theorem to lie within pro
 
 CLAIMED = {
     "C16": dict(
-        text=("Kernel-checked theorems over any linearly ordered field, for strictly increasing abscissae and n >= 2: the linear scan returns the unique bracketing index; at a knot the result is exactly that knot's ordinate in every mode; inside the range the result is the value on the line through the two neighbouring knots, hence between their ordinates; left of the first abscissa and right of the last the three modes give panic / the left resp. right fill value / the continuation of the first resp. last segment (the right-hand statements were false before repair F28); the checked variant rejects mismatched lengths and any descending step and otherwise agrees with the unchecked one; one outside target aborts the whole call in panic mode; totality otherwise. Tied bit for bit to the Rust code (knot counts 2..200, spacing ratios to 1e6, targets at knots, midpoints, +-1 ulp around knots and beyond both ends, all modes, both variants); exact-rational oracle (exact at knots and fills, derived forward-error bound inside). Rounding of the interior formula in the standard model: result within gamma_8 max|y| (<= 16u) of the line, exact at every knot (Props/Rounding2); the extrapolation branch is checked by the oracle only."
-              " ROUNDING (Props/Rounding5): the extrapolation branch is within gamma_6(|slope (t - x_k)| + |y_k|) of the line, and no bound relative to the exact value exists (kernel-checked example)."),
+        text=("Kernel-checked theorems over any linearly ordered field, for strictly increasing abscissae, n >= 2 knots and equally many ordinates (hypothesis bundle "
+              "Knots), about a hand-written model of interpolate.rs that mirrors the source line by line: the linear scan over the first n-1 abscissae returns the "
+              "unique bracketing index; at a knot the result is exactly that knot ordinate in every mode; inside the closed range the result is the value on the line "
+              "through the two neighbouring knots, hence between their ordinates; left of the first abscissa and right of the last the three modes give panic / the "
+              "left resp. right fill value / the continuation of the first resp. last segment (the right-hand statements were false before repair F28 and hold of the "
+              "current source); the checked variant rejects mismatched lengths and any DESCENDING step and otherwise agrees with the unchecked one; one outside "
+              "target aborts the whole call in panic mode; otherwise the call returns exactly one value per target. Every implication has a kernel-checked example on "
+              "the knots [0,1,2] / [0,10,20] over the rationals. Stated limits: duplicate (equal neighbouring) abscissae are not rejected by the checked variant (its "
+              "test is x[i+1] - x[i] < 0), lie outside every theorem, and are compared with the model only (kernel-checked witness [0,1,1,2]); this matches the "
+              "property text (unsorted) and is recorded as the specified behaviour. Tie: model and Rust code agree bit for bit on generated requests (knot counts "
+              "2..200 incl. 2^k and 2^k +- 1, spacing ratios to 1e6, targets at knots, midpoints, +- 1 ulp around knots, in the last segment, just beyond and far "
+              "beyond both ends, ordered multi-target calls, all modes, both variants, descents at block boundaries, segment widths w with w (1/w) != 1, scale "
+              "factors 2^+-500); the source tie (Props/SrcTieC16) regenerates only the six per-target arithmetic formulas (slopeLeft, extrapLeft, slopeRight, "
+              "extrapRight, ratio, lerp) from interpolate.rs and proves them equal to the model by rfl; the scan, the out-of-range test, the mode dispatch and the "
+              "index wiring of those formulas (which knots and ordinates are passed) are hand-written both in the model and in the tie theorem, so that control flow, "
+              "where F28 lived, is covered by the bit tie only. Oracle: exact rational arithmetic; exact at knots and fills, forward-error bound 16 u max|y| inside "
+              "and 16 u (|slope (t - x_k)| + |y_k|) outside plus an absolute subnormal slack, exact scale laws (ordinates times 2^k scale the result exactly, "
+              "abscissae and targets times 2^k leave it unchanged). ROUNDING in the standard model (Lemmas/FlModel: every operation has relative error <= u and there "
+              "is NO overflow and NO underflow): inside the range the computed result is within gamma_8 max|y| (<= 16u) of the line, between the ordinates up to "
+              "that, and exact at every knot (Props/Rounding2); the extrapolation branch is within gamma_6 (|slope (t - x_k)| + |y_k|) of the line and no bound "
+              "relative to the exact extrapolated value exists (kernel-checked example, Props/Rounding5). Results or intermediates outside the normal range (for "
+              "instance the 2^+-500 scale strata and ordinates near 1e-310) are outside that model; there the evidence is the oracle and the bit tie."),
         design='DESIGN.md §6 C16',
         technique='Lean 4 proof (scan invariant, segment algebra over ordered fields) + bit-exact correspondence + exact-rational oracle'),
     "C17": dict(
-        text=("Kernel-checked theorems: binom_coeff's model on 64-bit arithmetic returns exactly C(n,k) for every k <= n with C(n,k) < 2^64 (invariant c = C(n,i), every split division exact, no intermediate overflow, the overflow guard provably never fires while the value fits), with symmetry and Pascal's rule, and any guard/overflow outcome implies C(n,k) >= 2^64; over R: logistic(-x) = 1 - logistic x, 0 < logistic < 1, strictly increasing, logit o logistic = id, logistic o logit = id on (0,1), logit defined exactly on [0,1]; softmax (max-shifted definition of the source): all exponent arguments <= 0, denominator >= 1, entries positive, sum 1, order preserving, = exp x_i / sum exp x_j, shift invariant; Box-Cox = (x^l - 1)/l (ln x at l = 0, the continuous extension) defined iff x > 0, shifted form iff x + shift > 0. Tied bit for bit to the Rust code (all (n,k), n <= 67, and the 64-bit threshold region up to n = 2^64-1 with outcome classes; stratified f32 grids for the transforms) with exact-integer and mpmath oracles; binom_coeff_alt is checked by the oracle only. Float-level claims in the standard model with libm error u_f: every computed softmax entry is > 0 and |sum - 1| <= gamma_(n+1); logistic lies in (0,1] with relative error <= gamma_2 + gamma^f_1. Rounding of logit and Box-Cox is checked, not proved."
-              " ROUNDING (Props/Rounding5): logit and Box-Cox error bounds with libm ln/pow of relative error <= u_f."
-              " binom_coeff_alt is inside the model and tied bit for bit (no implementation-only request remains); theorems: with the ideal log-gamma it returns C(n,k), and from a stated accuracy of the log-gamma it is exact below an explicit size (1.6e8 for the accuracy C09 enforces); symmetry only for commutative subtraction."),
+        text=("Kernel-checked theorems about hand-written models of combinatorial.rs and statistical.rs. binom_coeff on 64-bit arithmetic (Nat with explicit range "
+              "checks): for every k <= n the model returns a value if and only if C(n,k) < 2^64, and that value is exactly C(n,k) (invariant c = C(n,i), every split "
+              "division exact, no intermediate overflow and no guard while the value fits; a value that does not fit is always stopped by the guard, which returns 0, "
+              "or by an overflow check, which is a panic in checked builds), with symmetry and the Pascal rule; k > n underflows. Over the reals: logistic(-x) = 1 - "
+              "logistic x, 0 < logistic < 1, strictly increasing, logit o logistic = id, logistic o logit = id on the OPEN interval (0,1), logit defined exactly on "
+              "[0,1]; at p = 0 and p = 1 the real model carries junk values of the totalised log 0 and 1/0, the code returns -inf and +inf, which are proved to be "
+              "the one-sided limits and are checked exactly by the oracle; softmax (max-shifted definition of the source, the seed of the running maximum being any "
+              "lower bound of the entries because the reals have no -infinity): all exponent arguments <= 0, denominator >= 1, entries positive, sum 1, order "
+              "preserving, = exp x_i / sum exp x_j, shift invariant; Box-Cox = (x^l - 1)/l (ln x at l = 0, proved to be the continuous extension) defined iff x > 0, "
+              "shifted form iff x + shift > 0 (boxcoxShifted_eq is a definitional unfolding, not a headline result). binom_coeff_alt (log-gamma route since repair "
+              "F52) is inside the model on top of the C09 ln_gamma model: with the ideal log-gamma it returns C(n,k); for any log-gamma within absolute error delta "
+              "of ln Gamma at the three arguments it is exact whenever C(n,k) (e^(3 delta) - 1) < 1/2, in numbers exact for C(n,k) <= 1.6e8 when delta = 1e-9, which "
+              "is what the accuracy 1e-12 max(1, ln Gamma) enforced by the C09 oracle gives for n <= 225; that accuracy of the Lanczos ln_gamma is a HYPOTHESIS of "
+              "these theorems (measured, not proved, never instantiated for the model ln_gamma in a theorem), so the exactness statement is conditional; symmetry "
+              "only for commutative subtraction (it fails at f64); k > n panics. Tie: every request is compared bit for bit between the Rust code and the model, no "
+              "implementation-only request remains (all (n,k) with n <= 67, the 64-bit threshold region up to n = 2^64-1 with outcome classes, binom_coeff_alt for "
+              "all n < 176 and up to 2^64-1, logit at both edges of [0,1], Box-Cox incl. |lambda| down to 1e-320, softmax lengths of every residue mod 8 up to 1000); "
+              "the source tie (Props/SrcTieC17) regenerates logistic, logit, boxcox and boxcox_shifted only, while softmax, binom_coeff and binom_coeff_alt are hand "
+              "models covered by the bit tie only. Quantifier: in the thorough tier EVERY f32 in +-745 (2 x 1,144,668,161 arguments) is run through logistic for "
+              "range [0,1], monotonicity, reflection within 200 eps, exact zeros and the model tie (hash of all result bits); accuracy against mpmath is SAMPLED (2e6 "
+              "of those 2.29e9 values, 0.09 per cent; 2e4 in the quick tier, where the sweep covers 12 chunks of 20000 bit patterns). Oracles: exact integers for "
+              "binom_coeff, mpmath with forward-error bounds for the transforms (cancellation-aware bound for Box-Cox: for |lambda| below about 1e-16 the result "
+              "loses all relative accuracy within that bound), a log-space bound and a theorem-backed exactness clause for binom_coeff_alt. Float-level theorems "
+              "(Props/Rounding3 and Props/Rounding5, owned elsewhere) hold IN THE STANDARD MODEL, i.e. with libm exp/ln/pow of relative error <= u_f and absent "
+              "under/overflow: x >= -708.39 resp. x_i - max >= -708; there every computed softmax entry is > 0 and |sum - 1| <= gamma_(n+1) for lengths <= 999 (the "
+              "contract allows 1000), logistic lies in (0,1] with relative error <= gamma_2 + gamma^f_1, logit and Box-Cox carry explicit error bounds. Outside that "
+              "range, which is inside the property domain, computed values may be exactly 0: logistic(-710.0) = 0 although the true value is 4.5e-309, softmax "
+              "[0,-800,1e4] = [0,0,1]; at f64 the range of logistic is therefore [0,1] and softmax entries are >= 0; this is the specified behaviour and the oracle "
+              "demands it exactly (values in [0,1] resp. >= 0, exact zeros where exp under/overflows, keys logistic:underflow-zero and softmax:underflow-zero)."),
         design='DESIGN.md §6 C17',
         technique='Lean 4 proof (Nat invariant with explicit u64 range checks, real analysis for logistic/softmax/Box-Cox) + bit-exact correspondence'),
     "C19": dict(
-        text=("Kernel-checked theorems for every element type, data list, RNG state and fuel, about the model of resample.rs on top of an exact model of the alea wyrand generator (validated bit for bit, including the generator state after each call): bootstrap returns exactly the requested number of resamples, each of the original length, every element equal to data[i] for a drawn index i < n; jackknife = [d.eraseIdx i | i < n] in order; shuffle returns a permutation of its input; shuffle_two returns a permutation of the zipped input (one common permutation) and rejects unequal lengths; all four return on length-1 input; on non-empty input the only way not to return is Lemire's rejection loop running out of fuel (no index panic); generator range lemmas (f64 in [0,1), u64_less_than < m, i64_in_range in [a,b]); equal likelihood as a counting statement: for each v < m exactly floor(2^64/m) raw 64-bit words are accepted with output v. Not proved: termination of the rejection loop for every state and the statistical quality of wyrand (searched with the DKW band, alpha = 1e-12, on bootstrap index frequencies). Tied bit for bit (lengths 1..2000, 1..200 resamples, 100 / 1e4 seeds, special values); exact multiset/pairing oracle."
-              " SOURCE TIE: jackknife is regenerated from resample.rs on every run and proved equal to the model (whose unwrap provably never fires)."),
+        text=("Kernel-checked theorems for every element type, data list, generator state and fuel, about the hand-written model of resample.rs on top of an exact "
+              "model of the alea wyrand generator (validated bit for bit, including the generator state after each call). UNCONDITIONAL: jackknife = [d.eraseIdx i | "
+              "i < n] in order and never panics; all four functions return on length-1 input for every state and fuel; shuffle_two rejects unequal lengths; "
+              "bootstrap_eq / shuffle_eq / shuffle_two_eq: on non-empty input (equal lengths) each function EQUALS a sequence of DiscreteUniform(0, n-1) index draws "
+              "of the run itself (n_bootstrap x n draws for bootstrap, 4n draws = 2n transpositions for the shuffles, draw j evaluated at the generator state left by "
+              "draws 0..j-1) followed by a total post-processing that cannot panic (data[i] for each drawn i; the SAME transposition list applied to both arrays for "
+              "shuffle_two). TERMINATION-RELATIVE TOTALITY: a call returns iff its own index draws all return (..._isSome_iff), in particular for every generator "
+              "state for which each of its Lemire draws returns within the fuel (..._returns); if a call does not return, there is a j below its number of draws such "
+              "that the first j draws of that run return and the rejection loop for bound n runs out of fuel at the state reached (..._none; no index panic, no "
+              "assert, no overflow for n < 2^63); more fuel never changes a returned result. WHENEVER THE CALL RETURNS (names end in _partial; termination of the "
+              "rejection loop for every state is NOT proved): bootstrap returns exactly the requested number of resamples, each of the original length, every element "
+              "equal to data[i] for an index i < n; shuffle returns a permutation of its input; shuffle_two returns a permutation of the zipped input (one common "
+              "permutation) and hence permutes each array. EQUAL LIKELIHOOD, per draw and as a counting statement: for n >= 2 every index drawn by bootstrap and "
+              "every a, b drawn by the shuffles is u64_less_than(n) evaluated at the state of the run at that draw (idxDraw_eq_lemire, bootstrap_draw_law, "
+              "shuffle_draw_law) and is the output of an accepted raw word; for each v < m exactly floor(2^64/m) consecutive raw 64-bit words are accepted with "
+              "output v (lemire_uniform), so an ideal word source gives exactly uniform positions; the statistical quality of wyrand itself is not a mathematical "
+              "fact and is only searched (DKW band alpha = 9e-13 on bootstrap draws plus first/last-index and first/last-slot frequency cells at 1e-14, per line and "
+              "pooled). Generator range lemmas: f64 in [0,1), u64_less_than < m, i64_in_range in [a,b]. Non-vacuity: runs on inputs of length 3 and 5, and a "
+              "rejection-heavy bounded draw, are evaluated inside the kernel and instantiate every returning-run hypothesis. Tied bit for bit (lengths 1..2000 incl. "
+              "2^k-1, 2^k, 2^k+1, 1..200 resamples, len x n_bootstrap around 65536, long-then-short call sequences, both zeros, NaN, special values, 100 / 1e4 "
+              "seeds); exact multiset / pairing / jackknife oracle. SOURCE TIE: only jackknife is regenerated from resample.rs on every run and proved equal to the "
+              "model (whose unwrap provably never fires); bootstrap, shuffle, shuffle_two, DiscreteUniform::sample and the alea functions are hand models tied by "
+              "bit-exact execution only."),
         design='DESIGN.md §6 C19',
         technique='Lean 4 proof (List.Perm invariants over swap sequences, Lemire counting argument on Nat) + bit-exact correspondence incl. RNG state'),
     "C02": dict(
-        text=("Kernel-checked theorems over R about the model of pdf/pmf, ln_pdf, cdf, mean and var of the 13 univariate laws and the multivariate normal, with the special functions as explicit parameters (hypotheses such as exp(lnGamma z) = Gamma z are stated and shown satisfiable): Normal, Gamma, Exponential, ChiSquared (= Gamma(k/2, 1/2)), Beta and Pareto densities equal Mathlib's gaussianPDFReal / gammaPDFReal / exponentialPDFReal / betaPDFReal / paretoPDFReal, whence non-negativity and total mass 1 are transferred; Poisson pmf = e^-l l^k / k! and sums to 1; Binomial pmf = C(n,k) p^k (1-p)^(n-k), 0 for negative and too-large counts, sums to 1 (binomial theorem); Bernoulli and DiscreteUniform: mass 1, first moment = mean(), second central moment = var() by exact finite sums; Uniform, Gumbel (density = derivative of its CDF), T via short specs; every density/mass is 0 outside the support (no panic outcome) and non-negative; the mean/var accessors equal the textbook formulas for all laws (with the infinite/undefined regimes of T and Pareto); Normal ln_pdf = log o pdf and the cdf formula; MVN pdf in terms of the cached inverse and determinant. MOMENTS AND MASSES AS INTEGRALS/SUMS of the density of the model itself (Props/C02Moments): total mass 1, integral of x pdf = mean(), integral of (x-mean)^2 pdf = var() for Exponential, Uniform, Gamma, ChiSquared, Beta, Normal, Pareto (with the infinite regimes: non-integrability exactly when the accessor says inf), Student t (mass 1 for every dof, mean/variance with complete NaN/inf case analysis), Gumbel (mass, CDF, mean = mu + beta gamma_Euler), Poisson and Binomial (sums); Normal cdf = integral of the density given erf = (2/sqrt pi) int_0^x e^(-t^2). PARTIAL: accuracy of Lanczos/erf (C09), the Gumbel variance as an integral, and that the MVN cache is the true inverse/determinant (C01/C11 prove the solver) are not proved; decided by the bit-exact tie (60k values quick) plus mpmath/scipy closed forms at every point and total mass / moments recomputed from the implementation's own values by quadrature or exact sums."),
+        text=("Kernel-checked theorems OVER THE REALS about the model of pdf/pmf, ln_pdf, cdf, mean and var of the 13 univariate laws and of the multivariate normal, "
+              "with the special functions the code calls as explicit PARAMETERS: the theorems for Gamma, Beta, ChiSquared, Poisson, Binomial, Student t and the "
+              "Normal cdf carry the hypotheses exp(lnGamma z) = Gamma z, exp(lnGamma(n+1)) = n!, ln1p x = log(1+x), erf = (2/sqrt pi) int_0^x e^(-t^2); these are met "
+              "by Real.Gamma and Real.log (shown), NOT by the Lanczos and erf approximations of the code, and no theorem bounds that gap (stability lemmas only show "
+              "that a ln_gamma error g multiplies the value by exp g; pi and the Euler constant are parameters too, of the generated Euler literal only 1/2 < literal "
+              "< 2/3 is proved). THE 13 UNIVARIATE LAWS: Normal, Gamma (x != 0, and the value 0 the code returns at x = 0), Exponential, Pareto densities equal the "
+              "Mathlib gaussianPDFReal / gammaPDFReal / exponentialPDFReal / paretoPDFReal; ChiSquared (= Gamma(k/2, 1/2)) and Beta equal gammaPDFReal / betaPDFReal "
+              "EXCEPT at the boundary points ChiSquared(k > 2) at 0 and Beta at 0 and 1, where the real-number model is junk (Real.log 0 = 0; theorems suffixed "
+              "_partial, those points are tied and searched only); total mass 1 is transferred; Poisson pmf = e^-l l^k / k! and sums to 1; Binomial pmf = C(n,k) p^k "
+              "(1-p)^(n-k), sums to 1 (binomial theorem); Bernoulli and DiscreteUniform (bounds within +-2^62, where the i64 arithmetic of the code cannot overflow): "
+              "mass 1, first moment = mean(), second central moment = var() by exact finite sums; Gumbel density = derivative of its CDF; for each of the 13 laws a "
+              "required theorem states non-negativity and one states that the value is 0 outside the support (negative and too-large counts included, no panic "
+              "outcome); Normal ln_pdf = log o pdf for sigma > 0. The closed forms of the mean/var accessors, of the Uniform and t densities and of the Normal cdf "
+              "are definitional restatements, not results. MOMENTS AND MASSES AS INTEGRALS / SUMS of the density of the model itself (Props/C02Moments), for the 13 "
+              "univariate laws only and under the hypotheses above: total mass 1, integral of x pdf = mean(), integral of (x-mean)^2 pdf = var() for Exponential, "
+              "Uniform, Gamma, ChiSquared, Beta, Normal, Pareto (with non-integrability exactly when the accessor says inf), Student t (mass 1 for every dof, "
+              "mean/variance with the complete NaN/inf case analysis), Gumbel (mass, CDF, mean; NOT the variance), Poisson and Binomial (sums); Normal cdf = integral "
+              "of the density given the erf hypothesis. MULTIVARIATE NORMAL (partial, conditional): pdf = exp(-1/2 q)/sqrt((2 pi)^k D) in terms of the CACHED inverse "
+              "and determinant under 0 < D (mvn_pdf_formula_partial, with a witness that the guard is needed), pdf >= 0 whenever it is a value, ln_pdf = log pdf for "
+              "D > 0, the panic cases of new and pdf, mean() and var() return the stored mean vector and covariance matrix, and an object built by new always passes "
+              "the asserts of pdf; NOT proved: that Matrix::inv / Matrix::det give the inverse / determinant of the covariance, that the cached determinant is "
+              "positive, total mass 1 and the moments of the MVN density. ALSO NOT PROVED: floating-point rounding; degenerate parameters the constructors admit "
+              "(Normal sigma = 0, Uniform lower = upper) are excluded by hypothesis and from the oracle; the constructor guards, the panics and the default ln_pdf = "
+              "ln(pdf) of eight laws are model definitions tied at run time, not theorems. These gaps are decided by the other two engines on every run: bit-exact "
+              "correspondence of pdf/pmf/ln_pdf/cdf/mean/var and of mvn_pdf / mvn_lnpdf / mvn_mean / mvn_var (about 280k values quick; special values, support end "
+              "points +-1 ulp, factorial thresholds, deep tails on both sides, objects reached through setters / update / clone, exact power-of-two scaling), and an "
+              "oracle that compares every value with mpmath closed forms (relative 1e-9, cdf 2e-7) and recomputes total mass, mean and variance from the values of "
+              "the implementation itself by panel quadrature or exact sums for the univariate laws and by tensor quadrature for the MVN in dimension 1 and 2 "
+              "(dimensions 3 to 6: pointwise only)."),
         design='DESIGN.md §6 C02',
         technique="Lean 4 proof (identification with Mathlib's probability densities, finite-sum algebra) + bit-exact correspondence + mpmath/quadrature search"),
     "C18": dict(
-        text=("Kernel-checked theorems over any linearly ordered field, for all 13 univariate distributions modelled as records with their cached sub-samplers and with new / every setter / update transcribed as the exact sequence of assignments (so a panic in mid-update leaves the partial state the code leaves): a constructor succeeds exactly on the documented domain; a setter accepts iff the constructor would accept the resulting parameters, and then yields exactly the fresh object, otherwise panics leaving the object untouched; update succeeds from every reachable state iff the constructor accepts the values (in particular bounds entirely above or below the old interval) and yields the fresh object; by induction over arbitrary histories (valid and invalid values interleaved) every reachable object has in-domain parameters, every cached sub-sampler equals the one a fresh constructor would build, and the whole record equals new(current params) - hence density, mean, variance and the sample stream from any RNG state coincide with the twin's. The tie compares, after every step of generated histories (13 kinds x 100/400 seeds, 1..20 mutations), the panic flag, the whole record, pdf/mean/var at probes and 32 seeded draws against the Lean model token for token, and the oracle demands equality with a freshly constructed Rust twin, also with unrelated objects created and sampled in between. NaN parameters are out of scope (stated)."
-              " SOURCE TIE: the validating constructors of ten distributions are regenerated from the Rust text on every run and proved equal to the record model."
-              " Every setter, update, integer-parameter constructor and Default impl is regenerated from the Rust text and proved equal to the record model, validation and assignment order included (Props/SrcTieC18Mut)."),
+        text=("Kernel-checked theorems over any linearly ordered field (so without NaN), for all 13 univariate distributions modelled as records with their cached "
+              "sub-sampler objects and with new / every setter / update transcribed as the exact sequence of checks, assignments and nested constructor calls (a "
+              "panic in mid-update leaves the partial state the code leaves). What is proved: a constructor succeeds exactly on the documented domain "
+              "(new_isSome_iff); a setter accepts iff the constructor would accept the resulting parameter list, then yields exactly the fresh object, otherwise "
+              "panics leaving the object untouched (set_spec); update succeeds from every reachable state iff the constructor accepts the cast slice, in particular "
+              "bounds entirely above or below the old interval, and yields the fresh object, and a rejected or half-applied update leaves an object that again "
+              "satisfies the invariant (update_spec, update_total, reject_invalid); by induction over arbitrary histories of calls with valid and invalid values "
+              "interleaved (step_inv, history_inv, reachable_inv) every reachable object has in-domain parameters (valid_inv), every cached sub-sampler equals the "
+              "one a fresh constructor builds (coherent_inv), and the whole record equals new(current parameters). Clause 1 of the property (observational identity "
+              "with a fresh twin) is therefore proved as RECORD EQUALITY over an ordered field; observational_equality and stream_equality are only its congruence "
+              "corollaries (f d = f tw from d = tw) and are not headline results; modelled_observations_eq instantiates them with the modelled pdf / pmf / mean / var "
+              "/ sample / n-draw stream of Model/C18Obs (the definitions the compiled driver runs, now scalar-polymorphic) over an ordered field with uninterpreted "
+              "transcendental functions, and sampleP_beta_param / sampleP_chisquared_param show, using coherent_inv, that the cache-reading samplers of Beta and "
+              "ChiSquared on a reachable object are the parameter-only samplers of Model/Samplers. Nothing is proved about these observations at Float or about the "
+              "Rust methods: at f64 the observation layer is tie plus twin oracle only, and that the stream does not depend on other existing objects has no theorem "
+              "(a model sampler has no argument through which another object could act; for Rust it is the interleaved-draws oracle). The clause that a setter to any "
+              "valid value succeeds whatever the previous parameters were is proved literally for the 11 kinds with independent fields (set_total_independent); for "
+              "Uniform and DiscreteUniform a bound is valid only jointly with the other current bound (uniform_set_iff, discreteuniform_set_iff): "
+              "Uniform(0,1).set_lower(5) panics in model and code, and has to, because accepting it would create lower > upper, which the clause that no object ever "
+              "holds an out-of-domain parameter forbids; this joint reading is the one set_spec states, and update is total on valid pairs. NaN is outside the "
+              "theorems: at f64 several constructors and their setters accept NaN (Normal, Gamma, Beta, Exponential, Gumbel, Pareto, Poisson, Uniform), so no "
+              "out-of-domain parameter holds only in the NaN-free reading; for NaN the check demands only that setters and updates accept exactly what the Rust "
+              "constructor accepts and that the object equals its twin. The tie compares, after every step of generated histories (13 kinds x 100/400 seeds, 1..20 "
+              "mutations, about 5 percent NaN values, a deterministic exact-domain-boundary stratum with every validated parameter at its boundary, 1 ulp, EPSILON "
+              "and EPSILON/2 beside it and two-parameter pairs equal, adjacent and crossing by 1..3 ulps through new, both setter orders and update), the panic flag, "
+              "the constructor-acceptance flag, the whole record, pdf/mean/var at probes and 32 seeded draws against the Lean model token for token; the oracle "
+              "demands equality with a freshly constructed Rust twin, also with unrelated objects created, mutated and sampled in between; bulk draws (sample_n and "
+              "sample_matrix up to 100000 values, around the 32768 threshold) are run twice and as single draws from one seed and compared by digest and final "
+              "generator state with the model. The redraw-on-zero loops of the Exponential, Gumbel and Pareto samplers (F53) are modelled but their redraw branch "
+              "(probability 2^-53 per draw) is not reached by any generated seed. SOURCE TIE: the validating constructors of ten distributions are regenerated from "
+              "the Rust text on every run and proved equal to the record model. Every setter, update, integer-parameter constructor and Default impl is regenerated "
+              "from the Rust text and proved equal to the record model, validation and assignment order included (Props/SrcTieC18Mut); the statement for "
+              "ChiSquared::set_dof there carries the hypothesis that Gamma::new(dof/2, 1/2) does not panic for positive dof, which chiSquared_setDof_srctie "
+              "discharges over every linearly ordered field (at Float it is covered by the tie)."),
         design='DESIGN.md §6 C18',
         technique='Lean 4 proof (invariant `fresh d = some d` by induction over operation histories, 13 record state machines) + bit-exact stateful correspondence + twin-object oracle'),
     "C20": dict(
@@ -64,9 +190,35 @@ CLAIMED = {
         design='DESIGN.md §6 C20',
         technique='Lean 4 proof (real analysis for monotonicity, power-series / Gamma-mixture PSD argument, table lemmas over the C04/C12/C15 models) + bit-exact correspondence'),
     "C01": dict(
-        text=('Kernel-checked theorems about the executable model of solve / solve_sys / invert_matrix / Matrix::solve / Matrix::inv, over any linearly ordered field (and over R with Real.sqrt): END-TO-END CORRECTNESS in exact arithmetic - whenever `solve a b` answers, A.x = b (Cholesky route: L.L^T = A and two triangular solves; LU route: P.A = L.U for every input and luSolve solves); on every non-singular input of order n >= 1 solve / solve_sys / invert_matrix never panic and return A^-1 b resp. A^-1 (Mathlib Matrix inverse), A.inv = I and inv.A = I; ROUTE INDEPENDENCE: any two valid routes return the same x; routing = Cholesky iff exactly symmetric with positive diagonal and all pivots positive, else LU, and every exactly symmetric positive-definite matrix is routed to Cholesky and factored; multi-RHS column c = single-RHS solve of column c with one route for all; inverse = solve against the identity; Matrix::solve / inv always use LU and are correct; layout conversions are mutually inverse transposes; forward/backward substitution solve T.x = b. ROUNDING (standard model fl(a op b) = (a op b)(1+d), |d| <= 2^-53, the one trusted link to IEEE arithmetic): backward-error bounds (T+dT)x = b, |dT| <= gamma_n|T| for both substitutions and the Cholesky solve for every n. and for the factorisations and `solve` itself (Props/RoundingLU): whatever solve returns satisfies (A+dA)x = b with |dA| <= gamma_(3n)|L||U| (LU route; norm-wise gamma_(3n) n ||U||) resp. gamma_(3n+1)|L||L^T| (Cholesky route), with residual corollaries. Not proved: a bound on the pivoting growth factor, hence the residual in the ||A||-form of the property, which is decided per run by the bit-exact tie on all six entry points (orders 1..32, all matrix classes incl. adversarial-pivot and sparse-SPD classes, 1..6 right-hand sides) plus an exact big-integer residual oracle ||A X - B|| <= 200 n eps (||A|| ||X|| + ||B||), A.A^-1 = I, and route/entry-point agreement.'
-              " SOURCE TIE: the substitution, LU and Cholesky routines under every solve route are regenerated from the Rust text on every run and proved equal to the hand model."
-              " solve, solve_sys and invert_matrix (routing and per-column loop) are regenerated from utils.rs and proved equal to the model. ROUNDING (Props/Rounding6): norm-wise residual per component, LU route with the growth factor explicit and unbounded, Cholesky route unconditionally."),
+        text=("Kernel-checked theorems about the executable model of solve / solve_sys / invert_matrix / Matrix::solve (Vector and Matrix) / Matrix::inv, over any "
+              "linearly ordered field (and over R with Real.sqrt). EXACT ARITHMETIC, SLICE ENTRY POINTS: whenever solve a b answers, A.x = b (Cholesky route: L.L^T = "
+              "A and two triangular solves, under the hypothesis that sqrt squares back on the pivots, true over R; LU route: P.A = L.U for every input and luSolve "
+              "solves when no pivot is zero); on every non-singular input of order n >= 1 solve / solve_sys / invert_matrix never panic and return A^-1 b resp. A^-1 "
+              "(Mathlib Matrix inverse), A.inv = I and inv.A = I; route independence: any two valid routes return the same x; routing = Cholesky iff "
+              "positive-definite-looking (eps-symmetric, positive diagonal) AND exactly symmetric AND all pivots positive, else LU; every exactly symmetric "
+              "positive-definite matrix is routed to Cholesky and factored; multi-RHS column c = single-RHS solve of column c with one route for all columns. MATRIX "
+              "ENTRY POINTS (always LU, Props/C01Review): for every well-formed square non-singular matrix Matrix::solve with a Vector of matching length, "
+              "Matrix::solve with a Matrix right-hand side of matching row count and at least one column, and Matrix::inv at order >= 1 are TOTAL (never panic) and "
+              "return x with A.x = b, X with A.X = B, X with A.X = I; the complementary panics are theorems too (wrong right-hand-side length, non-square receiver, a "
+              "right-hand side with no columns, the 0 x 0 inverse). Layout conversions are mutually inverse transposes; forward/backward substitution solve T.x = b "
+              "reading only their triangle. Definitional unfoldings (inverse = solve against the identity, Matrix::solve never routes, the routing if-then-else) are "
+              "kept as required lemmas but are not results. ROUNDING, in the standard model fl(a op b) = (a op b)(1+d), |d| <= u = 2^-53 (the one trusted link to "
+              "IEEE arithmetic; it is valid only when no operation overflows or underflows): for n >= 2 with (3n+1)u < 1 and PROVIDED NO COMPUTED PIVOT IS ZERO, "
+              "whatever solve returns satisfies (A+dA)x = b with |dA| <= gamma_(3n)|L||U| (LU route; norm-wise gamma_(3n) n ||U||) resp. gamma_(3n+1)|L||L^T| "
+              "(Cholesky route), with residual corollaries, also per component in norm-wise form (LU with the growth factor explicit and unbounded, Cholesky "
+              "unconditionally) and for invert_matrix; the same LU backward-error statement is proved for Matrix::solve with a Vector; solve_sys, Matrix::solve with "
+              "a Matrix and Matrix::inv inherit it only column by column through the column theorems; backward-error bounds (T+dT)x = b, |dT| <= gamma_n|T| for both "
+              "substitutions and the Cholesky solve for every n. NOT PROVED: a bound on the pivoting growth factor, hence the residual in the ||A||-form of the "
+              "property; FINITENESS of the results and absence of overflow (no theorem at all: oracle only; at the extreme power-of-two scales of the generator the "
+              "standard-model hypotheses fail); the f32 square root of is_square is modelled by the exact integer square root, which agrees with the code only below "
+              "2^24 elements (recorded assumption). These are decided per run by the bit-exact tie on all six entry points (orders 1..32 with the unrolling "
+              "boundaries 7..9, 15..17, 24, 25, 31, 32; all matrix classes incl. adversarial-pivot, sparse SPD, singular PSD, special values, extreme power-of-two "
+              "scale; right-hand sides with 1..6 and with nsys != n, nsys > n columns) plus an exact big-integer residual oracle ||A X - B|| <= 200 n eps (||A|| "
+              "||X|| + ||B||) for cond <= 1e11, finiteness, A.A^-1 = I, bit-identity of multi-RHS columns with single-RHS solves, and route / entry-point agreement "
+              "within 500 n eps cond. SOURCE TIE: the slice-level routines only - forward/backward substitution, lu, lu_solve, try_cholesky, cholesky_solve and the "
+              "routing glue and per-column loops of solve, solve_sys and invert_matrix are regenerated from the Rust text on every run and proved equal to the hand "
+              "model; the predicates is_symmetric, is_positive_definite, is_exactly_symmetric, is_square, is_matrix and every Matrix method (Matrix::lu, "
+              "Solve::lu_solve, Solve<Matrix>::lu_solve and solve, Matrix::inv) are hand-modelled and tied by the run-time bit-exact correspondence only."),
         design='DESIGN.md §6 C01',
         technique='Lean 4 proof (loop invariants for LU and Cholesky, P.A = L.U, L.L^T = A, solve correctness and totality via Mathlib Matrix, standard-model rounding bounds) + bit-exact correspondence + exact residual oracle'),
     "C03": dict(
@@ -76,93 +228,324 @@ CLAIMED = {
         design='DESIGN.md §6 C03',
         technique='Lean 4 proof (inverse-CDF algebra over R, loop characterisations, exact table arithmetic) + bit-exact stream correspondence + DKW search'),
     "C09": dict(
-        text=("Kernel-checked theorems about the model of gamma / ln_gamma / beta / digamma / erf with constants regenerated from the source (bits + exact rationals): gamma reflects at most once; the fuelled recursions equal their closed forms; digamma unfolds exactly ceil(6-x) times so psi(x+1) = psi(x) + 1/x holds by construction for x < 6, with series coefficients B_2k/(2k); beta is symmetric for any commutative * and +; erf is odd (x != 0), 0 <= erf x <= 1 for x >= 0 over R with the actual doubles, erf(0) = 18014399/2^54; the Lanczos sum is positive, ln_gamma = log(gamma) on z >= 1/2, the split power equals the legacy single power exactly while the latter overflows from z = 143; the reflection formula is exact and its divisor overflows below -171 (formal core of the open finding). PARTIAL by nature: the accuracy bounds 1e-13 / 1e-12 / 1e-10 / 1.5e-7 are approximation-theoretic and libm-dependent, not provable with what is installed; they are decided by the bit-exact tie (463k requests quick, 8.1M values thorough) plus a stratified search against mpmath at 50 digits with the property's own tolerances (pole-scaled for negative arguments) and the identities Gamma(x+1) = x Gamma(x), Gamma(n+1) = n!, psi(n) = H(n-1) - gamma."),
+        text=("PARTIAL. Carrier per clause of the statement: the accuracy clauses (gamma within 1e-13 pole-scaled, beta within 1e-12, digamma within 1e-10 relative "
+              "to max(1,|psi|), erf within 1.5e-7) and the identities Gamma(x+1) = x Gamma(x), Gamma(n+1) = n! are carried by SEARCH ONLY - no theorem covers them; "
+              "they are approximation-theoretic and libm-dependent facts, decided on every run by the bit-exact tie of the model to the Rust code plus a comparison "
+              "with mpmath at 50 digits at the property tolerances (identities at 1x the tolerance). The search is exhaustive only for erf in the thorough tier: "
+              "every f32-representable argument of [-6, 6] (2 172 649 474 arguments, erf(x) compared with scipy erf cross-checked against mpmath, erf(-x) = -erf(x) "
+              "and |erf| <= 1 bit for bit, model against code by a per-block checksum); gamma is SAMPLED: of the 2 253 756 824 f32-representable arguments of (-170, "
+              "171.6) the quick tier tests 170 000 (0.0075 percent) and the thorough tier 3 300 000 (0.146 percent), stratified in value and in bit pattern, plus "
+              "random f64, pole neighbourhoods, every integer and half-integer, range edges; beta on random pairs of (1e-3, 80)^2 and the whole integer grid "
+              "[1..80]^2 and half-integers; digamma on (1e-3, 1e6), integers up to 10^4 against harmonic numbers and half-integers. Kernel-checked theorems (about "
+              "the model of gamma / ln_gamma / beta / digamma / erf with constants regenerated from the source as bits + exact rationals) carry: psi(x+1) = psi(x) + "
+              "1/x for every non-pole x < 6 in exact arithmetic (one unfolding of the recursion; also for the exported digammaFn inside its fuel domain x >= -100003, "
+              "outside which it is a documented default and never compared), digamma unfolds exactly ceil(6-x) times with series coefficients B_2k/(2k); beta "
+              "symmetric for any commutative * and +; erf (which since repair F56 branches on the sign bit) is odd at EVERY argument including both zeros on any "
+              "scalar type whose negation flips the sign bit (an IEEE law, stated as a hypothesis, true at Float and impossible on a field; over ordered fields the "
+              "statement is for x != 0 and erf(0) = 18014399/2^54 at the single zero); |erf x| <= 1 and 0 <= erf x <= 1 for x >= 0 over the reals with the actual "
+              "doubles; gamma reflects at most once and the fuelled recursions equal the exported closed forms exactly where the Rust functions return (for erf: "
+              "every argument, NaN and both zeros included; for digamma: every x >= -100003, below which executor and model refuse the request); the Lanczos sum is "
+              "positive for z > 0, ln_gamma = log(gamma) on z >= 1/2, the split Lanczos power (repair F21) equals the legacy single power exactly, its factors before "
+              "the last product stay below 2^688 (partial: the last product is not bounded), and the legacy power exceeds 2^1024 from z = 143 although Gamma(143) is "
+              "finite. Two further theorems are about the TRUE Gamma function only, not about the model: the reflection formula pi / (sin(pi z) Gamma(1-z)) = "
+              "Gamma(z), and Gamma(1-z) > 2^1024 for z <= -171; they explain, but do not prove, the open finding that gamma returns +-0 below -170.62 near the poles "
+              "where the true value is a normal f64 (the overflow of the computed divisor is observed by the tie and the lower-edge stratum). Over the reals the "
+              "model has junk values at the poles (gammaFn 0 = 0, psi(0) = psi(1)); the theorems carry non-pole guards or say nothing there. Not proved: "
+              "floating-point rounding of any operation. Tie: about 480 000 requests in the quick tier and about 7 million sampled values plus the exhaustive erf "
+              "sweep in the thorough tier, 0 differences. Open finding: gamma:reflection-overflow:x<-170.62 (listed; emitted only for its signature result +-0). The "
+              "former erf findings (not odd at 0, no return at NaN) were repaired by F56 and are unconditional regression guards of the oracle (keys erf:odd:x=0, "
+              "erf:nan:stack-overflow: exact bits 3e112e0be0000000 / be112e0be0000000 at the zeros, NaN at NaN, 0 oddness violations in the sweep)."),
         design='DESIGN.md §6 C09',
         technique='Lean 4 proof (structure/recurrence/sign/positivity over ordered fields and R, exact table decoding) + bit-exact correspondence + mpmath-50 search'),
     "C10": dict(
-        text=('Kernel-checked refinement theorems: for every gradient oracle, start, hyper-parameters and budget k < 2^31 the model of Adam returns iterate min(k, stopIdx) of the Kingma-Ba recurrence (bias correction with t from 1), and SGD (plain, momentum, Nesterov with the gradient at theta - mu u) likewise; prefix property and determinism; an early stop implies every parameter moved by less than eps relative (signed test); Levenberg-Marquardt (exact solve, ordered field): predicted reduction >= 0, an accepted step strictly decreases the residual sum of squares, rss(theta_t) <= rss(theta_0) for every budget, the stored J^T J / residual belong to the current parameters and the result is (theta, rss/(n-p) (J^T J)^-1) at the returned point; the model of the `reverse` tape returns the Frechet derivative of the objective for EVERY node kind of the catalogue (+ - x / neg powi exp sin) except `f64 / Var` nodes, for which the wrong weight of the dependency -1/x is itself a theorem (the open finding); hence Adam/SGD follow the published rule with the TRUE gradient; LM descent holds unconditionally for tau > 0 and no vanishing Jacobian column (damped normal matrix positive definite, LU solve exact). LM convergence and rounding are not proved. Tied to the Rust code by bit-exact replay of whole trajectories (maxsteps = 1..K) through an RPN objective catalogue interpreted with real reverse::Var on one side and the tape model on the other; interval-arithmetic recurrence oracle. One open finding (dependency `reverse`: f64 / Var derivative weight) is listed in known_findings.txt.'
-              " SOURCE TIE: the five Adam and two SGD per-coordinate update formulas are regenerated from adam.rs / sgd.rs on every run and proved equal to the model step."
-              " LM on models linear in the parameters (Props/Rounding7, Rounding8, exact arithmetic): fixed points are the least-squares solutions, every step is accepted and strictly descends, the damping stays below max(mu_0, 2), the iterates of the model loop converge geometrically unless a stop test fires, and a stop by eps1 / eps2 bounds the gradient."),
+        text=("Kernel-checked theorems about the hand model of src/optimize (adam, sgd, lm, rel_change) and of the reverse tape. ADAM / SGD: for every gradient "
+              "oracle, start, hyper-parameters and budget k < 2^31 the model of Adam returns iterate min(k, stopIdx) of the Kingma-Ba recurrence (bias correction "
+              "with t from 1, epsilon outside the square root), and SGD (plain, momentum, Nesterov with the gradient at theta - mu u) likewise, with the prefix "
+              "property; the content is the loop-to-iterate refinement (the per-coordinate formulas are equal up to ring identities). An early stop implies that "
+              "every parameter satisfies new = old or |new - old| < 2^-52 max(|new|, |old|) (ordered field with abs and max; in f64 a NaN relative change is dropped "
+              "by f64::max, so an overflowed run can stop with an inf/NaN coordinate: tied by correspondence only). TAPE: the model of the reverse tape returns the "
+              "Frechet derivative of the objective for every node kind of the catalogue (+ - x / neg powi exp sin) except f64 / Var nodes, for which the wrong weight "
+              "-1/x of the dependency is itself a theorem (the open finding); hence Adam / SGD follow the published rule with the TRUE gradient whenever the "
+              "objective is inside its domain of differentiability at the points where the run takes a gradient (hypothesis along the run, not derived from the "
+              "start). LEVENBERG-MARQUARDT (ordered field, tape evaluator of the source, evaluator laws proved relative to the well-formedness invariant of the tape "
+              "state): predicted reduction >= 0 for an exact solution of the damped normal equations; an accepted step strictly decreases the residual sum of "
+              "squares; for tau > 0, 1 <= p < n and no vanishing Jacobian column AT THE PARAMETER VECTORS OF THE SUBLEVEL SET rss(theta) <= rss(start) (or, "
+              "alternatively, a non-singular damped normal matrix there) the damped systems are positive definite, the pivoted LU solve is exact, and whatever LM "
+              "returns after any budget has rss <= rss(start), belongs to the returned point and reports rss/(n-p) times invOf(J^T J), where invOf is proved to be "
+              "the inverse when J^T J is non-singular; starts on which a Jacobian column vanishes (p0 exp(p1 x) at p0 = 0, logistic at L = 0) and the case n = p "
+              "(division by zero: inf/NaN covariance) are outside the theorems. LM CONVERGENCE is NOT proved for LM::optimize: Props/Rounding7 proves the mathematics "
+              "of one damped step on linear models over the reals (fixed points are the least-squares solutions, strict descent, error recursion, geometric rate) and "
+              "Props/Rounding8 a loop skeleton for an idealised evaluator satisfying EvalLaws (not the tape evaluator, for which EvalLaws is provably unsatisfiable); "
+              "reaching the least-squares solution is searched by the oracle (exact solve and a contraction-rate bound). Rounding is not proved. DETERMINISM of the "
+              "real code (a RefCell tape inside the optimizer object) is observed, not proved: repeated requests and second calls on a used or cloned object must "
+              "reply bit-identically. TIE: bit-exact replay of whole trajectories (maxsteps = 1..K) through an RPN objective catalogue interpreted with real "
+              "reverse::Var on one side and the tape model on the other, for every public route to an optimizer (new, clone, reuse, Default, with_stepsize, "
+              "set_stepsize, public LM fields); strata for exact landings on stationary coordinates, geometric contraction to the origin and tiny magnitudes, exact "
+              "boundaries of every stop / accept test (relative change exactly 2^-52, eps1 / eps2 ties, gain ratio 0, 0/0 and 1/2), hostile LM starts (overflow, NaN "
+              "gain ratio, vanishing Jacobian column, extreme damping); interval-arithmetic published-rule oracle with an exact rational stop rule, LM oracle at 200 "
+              "bits (descent, finiteness, covariance, least squares on linear models). SOURCE TIE: the five Adam and two SGD per-coordinate update formulas are "
+              "regenerated from adam.rs / sgd.rs on every run and proved equal to the model step; the loop skeleton, rel_change, the EPSILON comparison, the Nesterov "
+              "look-ahead, all of LM and the tape are tied at run time only. One open finding (dependency reverse: f64 / Var derivative weight) is listed in "
+              "known_findings.txt."),
         design='DESIGN.md §6 C10',
         technique='Lean 4 proof (loop-to-iterate refinement, LM descent invariant, chain rule over commutative rings) + bit-exact trajectory correspondence'),
     "C11": dict(
-        text=("Kernel-checked theorems about the models of lu / cholesky / substitutions / det (slice level and Matrix level): CHOLESKY - whenever cholesky returns l it is lower triangular with positive diagonal and L.L^T = A; every exactly symmetric positive-definite matrix is factored (completeness, uniqueness of the factor); the sweep rejects exactly at a diagonal cell whose pivot is <= 0 and non-symmetric input panics; LU - for EVERY square input over an ordered field the pivot vector is a permutation, P.A = L.U (with the exact residual identity and the necessary-and-sufficient condition over general fields), every multiplier satisfies |l_ij| <= 1 and is 0 under a zero pivot; prod diag U = det(P.A), pivots all non-zero iff det != 0; DETERMINANT - ipiv_parity returns Mathlib's Equiv.Perm.sign of the pivot permutation for every size (never diverges, panics exactly on non-permutations), so det = sign . prod diag U; Matrix-level lu, lu_solve, cholesky, substitutions equal the slice-level ones; triangular solves invert triangular systems. ROUNDING (standard model): |L L^T - A| <= gamma_(n+1)|L||L^T| and |L U - P A| <= gamma_n|L||U| for the computed factors, multipliers <= 1 under monotone rounding. Not proved: the growth factor behind the oracle's norm-wise tolerance - decided per run by the bit-exact tie and exact big-integer oracles (||PA - LU||, ||LL^T - A|| within c n eps ||A||, |L| <= 1, permutation, exact determinants of integer matrices by Bareiss, indefinite input rejected, Matrix = slice bit for bit)."
-              " SOURCE TIE: forward/backward substitution, lu, lu_solve, try_cholesky, cholesky and cholesky_solve are regenerated from the Rust text on every run (in-place mutation loops translated to folds) and proved equal to the hand model."
-              " ROUNDING (Props/Rounding6): every entry of |L||L^T| of the computed Cholesky factor is at most max a_ii/(1-gamma_(n+1))."),
+        text=("Kernel-checked theorems about the models of lu / cholesky / substitutions / det (slice level and Matrix level) over an ordered field. CHOLESKY: "
+              "whenever cholesky returns l, it is lower triangular with positive diagonal (needs only that sqrt maps positives to positives) and, under the "
+              "hypothesis that sqrt squares back on the n pivots (true over R, cholesky_correct_real), L.L^T = A - on the whole matrix for exactly symmetric input, "
+              "on the lower triangle only for input that is symmetric merely up to eps = 2^-52 (which the assert accepts); every exactly symmetric positive-definite "
+              "matrix is factored (completeness, uniqueness of the factor); REJECTION: the sweep stops exactly at a diagonal cell whose pivot is <= 0, input failing "
+              "the eps-symmetry assert panics, and (Props/C11Review) for every order every exactly symmetric matrix that is NOT positive definite is rejected by "
+              "cholesky and by Matrix::cholesky when sqrt is positive and exact on positives (e.g. over R): a returned factor would make the matrix positive "
+              "definite. LU: for EVERY square input the pivot vector is a permutation, P.A = L.U (with the exact residual identity and the necessary-and-sufficient "
+              "condition over general fields), every multiplier satisfies |l_ij| <= 1 and is 0 under a zero pivot; prod diag U = det(P.A); all pivots non-zero iff "
+              "det(P.A) != 0. DETERMINANT: ipiv_parity returns Mathlib Equiv.Perm.sign of the pivot permutation for every size (never diverges, panics exactly on "
+              "non-permutations), P.A is the stored matrix with rows re-indexed by that permutation, hence Matrix::det m = det A (Mathlib Matrix.det of the stored "
+              "matrix) for every well-formed square matrix, singular ones included, and the route lu followed by lu_det returns the same value; det panics exactly on "
+              "non-square matrices. Matrix-level lu, lu_solve, cholesky and (on matrices passing their triangularity assert) the substitutions equal the slice-level "
+              "ones; forward/backward substitution invert triangular systems with non-zero diagonal. Definitional unfoldings (det = prod diag U times parity, lu_det "
+              "likewise, Matrix::cholesky = guard then slice cholesky) are kept as required lemmas but are not results. The concrete rational witnesses are evaluated "
+              "with an exact square root on perfect squares (the displayed factor of [[4,2],[2,2]] is its true factor [[2,0],[1,1]]). ROUNDING (standard model fl(a "
+              "op b) = (a op b)(1+d), |d| <= u, valid without overflow/underflow): |L L^T - A| <= gamma_(n+1)|L||L^T| and |L U - P A| <= gamma_n|L||U| for the "
+              "computed factors (LU: when no computed pivot is zero), multipliers <= 1 under monotone rounding, every entry of |L||L^T| at most max "
+              "a_ii/(1-gamma_(n+1)). NOT PROVED: the growth factor behind the norm-wise tolerance of the oracle; that the f32 square root of is_square equals the "
+              "exact integer square root of the model (true only below 2^24 elements; recorded assumption). Decided per run by the bit-exact tie (orders 1..32 with "
+              "the unrolling boundaries, dense, integer, rank-1 and rank-deficient, singular, zero-leading-pivot, permutation, adversarial-pivot, extreme "
+              "power-of-two scale with exact scaling-invariance pairs, SPD incl. sparse arrowhead/banded/block, singular PSD with an exactly zero pivot, symmetric "
+              "indefinite) and exact big-integer oracles: ||PA - LU|| and ||LL^T - A|| within c n eps ||A||, |L| <= 1, permutation, positive Cholesky diagonal, exact "
+              "determinants of integer matrices and of integer matrices times a power of two by Bareiss, not-positive-definite input rejected, Matrix = slice bit for "
+              "bit, solves from an explicit factor. SOURCE TIE: the slice-level forward/backward substitution, lu, lu_solve, try_cholesky, cholesky and "
+              "cholesky_solve are regenerated from the Rust text on every run (in-place mutation loops translated to folds) and proved equal to the hand model; "
+              "Matrix::lu, Matrix::det, lu_det, the Matrix substitutions, ipiv_parity, is_symmetric and is_square are hand-modelled and tied by the run-time "
+              "correspondence only."),
         design='DESIGN.md §6 C11',
         technique='Lean 4 proof (column-loop invariant for P.A = L.U, Cholesky sweep invariant, cycle-shortening invariant for parity = Equiv.Perm.sign) + bit-exact correspondence + exact reconstruction oracle'),
     "C13": dict(
-        text=('Kernel-checked theorems over an ordered field: acovf/acf equal the biased-estimator sums, are even in the lag (for any scalar type), acf(0) = 1 for non-zero variance, |acf k| <= 1 (Cauchy-Schwarz), lags |k| >= n give 0; difference o cumsum; AR fit: intercept = mean and, given an exact inverse of the Toeplitz matrix, the coefficients satisfy the Yule-Walker equations; predict_one / predict equal mean + the AR recursion on the mean-centred history for every history length; fit and forecasts are shift-equivariant (series + c gives every forecast + c). With the proved solver correctness the Yule-Walker statement holds unconditionally for a non-singular Toeplitz matrix. Forecasts converge to the series mean whenever sum|phi_j| < 1 (explicit geometric bound) and whenever all roots of the characteristic polynomial lie inside the unit disc (Gelfand formula on the companion matrix; Props/C13Conv). Float-level (standard model): acovf error bound with a provably necessary first-order mean term for lag k > 0, |acf| <= 1 + gamma, |acf(0) - 1| <= gamma_4. PARTIAL: that a fit is stationary, and convergence of forecasts to the mean and rounding are decided by the bit-exact tie plus exact-integer / 240-bit mpmath oracles with a-priori rounding bounds, paired shifted runs and a horizon-1000 convergence check.'
-              " ROUNDING (Props/Rounding5): the one-step forecast is within gamma_(p+3)(|c| + sum|phi_j||x_j - c|) of the exact AR recursion; difference is exact up to one rounding per entry."
-              " ROUNDING end to end (Props/Rounding6): residual bound of the Toeplitz Yule-Walker system of the computed autocorrelations."
-              " SOURCE TIE: AR::predict_one with its short-history branch is regenerated from the Rust text and proved equal to the model."),
+        text=("Kernel-checked theorems about the executable model (the definitions the Float driver runs) over an ordered field. Autocovariance: for every non-empty "
+              "series and lag, acovf equals the biased-estimator sum (acovf_def, guard ts nonempty); for every series of non-zero variance, acf equals the ratio of "
+              "the lag-k and lag-0 estimators (acf_def), acf(0) = 1 and |acf k| <= 1 (via 2|ab| <= a^2 + b^2); lags |k| >= n give 0 (acovf for non-empty series, acf "
+              "for non-zero variance). The complementary cases are stated, not hidden behind x/0 = 0: on an empty series the code forms 1/0 * -0 (acovf_empty) and on "
+              "a zero-variance series numerator and denominator of acf are both 0 (acf_degenerate), NaN in IEEE arithmetic, which the oracle demands on constant and "
+              "empty corpus lines. Evenness in the lag holds for any scalar type (an unfolding-level fact). difference inverts cumulative summation in both "
+              "directions and panics on an empty vector. AR fit: the intercept is the series mean; the matrix inverted is the Toeplitz matrix of the series "
+              "autocorrelations (fit_toeplitz_entry); given an exact inverse the un-reversed stored coefficients solve the Yule-Walker equations (fit_yule_walker, "
+              "instantiated at order 2 over Q where the coefficient reversal and the |i-j| indexing are visible). Without the inverse hypothesis the same holds, and "
+              "fit does not panic, over an ordered field whose sqrt and abs are exact (for example the reals, not Q) whenever the Toeplitz matrix is non-singular "
+              "(ar_fit_total, Props/C01SolveApps; instantiated over R with every hypothesis discharged in Props/C13Review). predict_one and predict equal mean + the "
+              "AR recursion on the mean-centred history, for every history length in predict_one (F42) and with a panic in predict for histories shorter than the "
+              "order; fit and forecasts are shift-equivariant (forecast_shift: series + c gives every forecast + c). Convergence (Props/C13Conv): for ARBITRARY "
+              "coefficients with sum|phi_j| < 1 (explicit geometric bound) or all characteristic roots inside the unit disc (Gelfand formula) the forecasts tend to "
+              "the intercept; that a particular Yule-Walker fit satisfies either condition is not proved and is searched by the oracle. Float level, standard model: "
+              "acovf error bound with a provably necessary first-order mean term, |acf| <= 1 + gamma, |acf(0) - 1| <= gamma_4 (Props/Rounding3); one-step forecast "
+              "within gamma_(p+3)(|c| + sum|phi_j||x_j - c|) and difference exact to one rounding per entry (Props/Rounding5); residual bound of the Toeplitz system "
+              "of the computed autocorrelations (Props/Rounding6). SOURCE TIE: AR::predict_one with its short-history branch and the accumulation loops of acovf, acf "
+              "and difference are regenerated from the Rust text and proved equal to the model; AR::fit (including the coefficient reversal) and the AR::predict loop "
+              "are hand-modelled and tied only by the bit-exact run-time correspondence (listed under TRUSTED). PARTIAL: stationarity of a fit, rounding of the "
+              "fitted coefficients and multi-step forecasts are decided by the bit-exact tie plus exact-integer and 240-bit mpmath oracles with a-priori rounding "
+              "bounds, paired shifted and power-of-two-scaled runs, refits of one object, and a horizon >= 200 convergence check."),
         design='DESIGN.md §6 C13',
         technique='Lean 4 proof (finite-sum algebra, Cauchy-Schwarz, recursion by induction over the horizon) + bit-exact correspondence'),
     "C14": dict(
-        text=("Kernel-checked theorems over any (ordered) field: predict is Horner = sum c_i x^i for every coefficient list; vandermonde entry V[i,j] = x_i^j; given an exact inverse of V^T V the fitted coefficients satisfy the normal equations, i.e. the residual is orthogonal to every power x^0..x^d; rss c' = rss c + ||V(c' - c)||^2 >= rss c for every other c' (minimality); data generated by a polynomial of the degree are reproduced. With the proved solver correctness these hold unconditionally (and `fit` does not panic) whenever the normal matrix is non-singular. PARTIAL: rounding is decided by the bit-exact tie plus an exact-rational oracle (orthogonality residual scaled by cond(V^T V) eps, perturbation test, exact-integer reproduction)."
-              " ROUNDING in the standard model (Props/Rounding5): every entry of predict is within gamma_(2n) sum|a_i||x|^i of the polynomial value (Horner)."
-              " ROUNDING end to end (Props/Rounding6): the computed coefficients satisfy a residual bound of the computed normal system in terms of the computed Cholesky/LU factors and the computed Vandermonde matrix."
-              " SOURCE TIE: PolynomialRegressor::fit as a whole function is regenerated from the Rust text and proved equal to the model."),
+        text=("Kernel-checked theorems about the executable model (the definitions the Float driver runs). Over any commutative semiring predict is Horner = sum c_i "
+              "x^i for every coefficient list; over a monoid vandermonde has entries V[i,j] = x_i^j (p <= 2^31, where the source cast is the identity). Over a field, "
+              "given an exact inverse of V^T V (hypothesis IsInverse: G * Ginv = I, from which the left inverse is derived), the fitted coefficients satisfy the "
+              "normal equations, the residual is orthogonal to every power x^0..x^d, and data generated by a polynomial with p coefficients are returned exactly; "
+              "over an ordered field rss c2 = rss c + ||V(c2 - c)||^2 >= rss c for every other coefficient vector (minimality). These are instantiated with every "
+              "hypothesis discharged at degree 1 and at degree 2 (p = 3, abscissae -7, -1, 1, 7, pivots 4, 100, 2304) over Q. The property hypothesis itself, at "
+              "least degree+1 distinct abscissae, is a theorem hypothesis in Props/C14Review: it makes V^T V non-singular (distinct_imp_xtx_det_ne_zero: v^T V^T V v "
+              "= ||Vv||^2, and a polynomial of degree < p with p distinct roots vanishes), and it is needed (repeated_abscissa_singular). Hence, over an ordered "
+              "field whose sqrt and abs are exact (for example the reals, not Q, because the Cholesky route takes square roots), for every data set with at least "
+              "degree+1 distinct abscissae fit does not panic, satisfies the normal equations, minimises the residual sum of squares (poly_fit_total_distinct) and "
+              "reproduces polynomial data (fit_reproduces_distinct), with no hypothesis on the solver; both are instantiated over R. Mismatched lengths and empty "
+              "data panic (fit_rejects_mismatch, fit_rejects_empty). Float level, standard model: every entry of predict is within gamma_(2n) sum|a_i||x|^i of the "
+              "polynomial value (Props/Rounding5); the computed coefficients satisfy a residual bound of the computed normal system in terms of the computed factors "
+              "and the computed Vandermonde matrix (Props/Rounding6; its only example is at the exact model, where the bound collapses). SOURCE TIE: the call chain "
+              "of PolynomialRegressor::fit (argument order, transpose flags, dimensions, length assert, state update) is regenerated from the Rust text and proved "
+              "equal to the model; the generated code calls the model versions of vandermonde, xtx, invert_matrix and matmul, which are tied by C15, C05 and C01 and "
+              "by the run-time correspondence, not by this tie. PARTIAL: rounding of the fit is decided by the bit-exact tie plus an exact-rational oracle "
+              "(orthogonality residual scaled by cond(V^T V) eps, minimality excess and random perturbations, forward error against the exact least-squares solution, "
+              "exact-integer reproduction, exact power-of-two scaling of the responses, refits of one regressor, designs with exactly-zero power sums)."),
         design='DESIGN.md §6 C14',
         technique='Lean 4 proof (normal equations and Pythagoras over fields via Mathlib Matrix) + bit-exact correspondence + exact-rational oracle'),
     "C04": dict(
-        text=("Kernel-checked theorems: each of the 8 unrolled kernel macros of vops.rs (8-at-a-time body + remainder) equals List.map / List.zipWith at every "
-              "length, for every element type and operator, with `none` (panic) on length mismatch and the scalar on the correct side; vpowi's exponent-2/3 fast path "
-              "in full chunks is consistent with powi = x^n in every commutative monoid (square-and-multiply = x^n for every i32 exponent); every one of the 44+44 "
-              "Vector/Matrix operator impl rows and 62 map rows, re-extracted from the macro invocations in vec.rs/matrix.rs/vops.rs on every run, is proved by `decide` "
-              "to call the kernel generated from its own operator token with arguments in order (self, other), the right shape source and (for matrix compound "
-              "assignment) a shape assert, so each operator form computes the scalar op at each position with shape preserved; reductions in exact arithmetic: "
-              "sum8 = sum, dot8 = sum of products, prod, norm = sqrt(sum x^2), max, inf_norm, logsumexp = log sum exp x_i and logmeanexp over R with all shifted "
-              "exponents <= 0 and 1 <= sum exp(x_i - m) <= n (no overflow at any magnitude); WORST-CASE ROUNDING BOUNDS in the standard model of floating-point arithmetic (trusted link: IEEE binary64 satisfies fl(a op b) = (a op b)(1+d), |d| <= 2^-53 barring overflow/underflow): |sum8 x - sum x| <= gamma_(n-1) sum|x|, dot within gamma_n sum|x_i y_i|, prod within gamma_n relative, norm within gamma_(n/2+2) relative, inf_norm within gamma_ncols relative, logsumexp / logmeanexp with an explicit bound in u, the libm error u_f and the spread max - min (data magnitude enters only through one final rounding), for the exact 8-way unrolled association. Tied bit for bit to the Rust code on all lengths 0..40 and random lengths "
-              "to 1e4 for every form, map and special value; exact element-wise oracle and worst-case gamma_n-bound oracles for the reductions (rounding bounds are "
-              "checked, not proved)."),
+        text=("Kernel-checked theorems about a hand-written Lean model of vops.rs and of the Vector / Matrix operator and map surface: each of the 8 unrolled kernel "
+              "macros (8-at-a-time body + remainder) equals List.map / List.zipWith at every length, for every element type and operator, with `none` (panic) on "
+              "length mismatch and the scalar on the correct side; the exponent-2/3 fast path of vpowi lives in full chunks only and the kernel is the plain map of "
+              "the scalar powi as soon as 1*a = a and a*b = b*a hold (the two facts IEEE multiplication satisfies; associativity is not used: vpowi_eq_map_powi_of), "
+              "and square-and-multiply powi = x^n for every i32 exponent in every monoid / field; every one of the 44+44 Vector/Matrix operator impl rows and 62 map "
+              "rows of a wiring table re-extracted from vec.rs / matrix.rs / vops.rs / broadcast.rs on every run is proved by `decide` to call the kernel generated "
+              "from its own operator token with arguments in order (self, other), the right shape source and (for matrix compound assignment) a shape assert, each "
+              "expected form occurring exactly once, so each operator form OF THE MODEL computes the scalar op of its own trait at each position with shape "
+              "preserved; Matrix op= Matrix with different shapes and Matrix op Matrix with shapes that do not broadcast give `none` (matrix_assign_shape_mismatch, "
+              "matrix_op_mismatch via the C12 rejection theorem; compatible unequal shapes are C12). The link from the Rust text to that table and model is a "
+              "translator, not a proof: every expanded impl body must match in full one of five wrapper templates around exactly one kernel call, operand types "
+              "outside Vector/&Vector/Matrix/&Matrix/f64 are rejected, and every kernel macro body must match in full the template the model was transcribed from "
+              "(all 8 lanes in order with the operand order of the family, spelled as literal lanes, a lane loop or a block-zip loop; chunk count; assert; tail loop "
+              "from chunks*8), as must Neg, makefn_matops and the map methods; any other text is an extraction alarm (VIOLATION). SOURCE TIE by regeneration: "
+              "logsumexp (with its empty guard), logmeanexp, prod, norm, is_matrix, inf_norm (SrcC04Loops; inside them dot and max are substituted by name) and "
+              "utils::sum / utils::dot themselves (SrcC04Mut: sum_eq, dot_eq against Cv.sum8 / Cv.dot8) are regenerated from utils.rs on every run and proved equal "
+              "to the model; the vops kernel macros are not in the translator table (template match only). Reductions in exact arithmetic: sum8 = sum and dot8 = sum "
+              "of products in every additive monoid, prod, norm = sqrt(sum x^2), max = greatest element, both inf_norm implementations = largest absolute row sum, "
+              "and over the reals for NON-EMPTY input without NaN logsumexp = log sum exp x_i and logmeanexp = log mean exp x_i with every shifted exponent <= 0 and "
+              "1 <= sum exp(x_i - m) <= n, so the exponentials cannot overflow at any magnitude of finite input (the subtraction v - xmax itself can overflow only "
+              "for inputs of opposite sign near +-f64::MAX, not covered). Rounding (theorems in Props/Rounding*.lean, standard model fl(a op b) = (a op b)(1+d), |d| "
+              "<= u, which binary64 satisfies only in the absence of overflow and, for * and /, underflow): |sum8 x - sum x| <= gamma_n sum|x|, and gamma_(n-1) for "
+              "idempotent rounding and representable inputs; dot within gamma_n sum|x_i y_i| for idempotent rounding; prod within gamma_n relative; norm within "
+              "gamma_(n/2+2) relative and inf_norm within gamma_ncols relative (sqrt with relative error <= u); logsumexp / logmeanexp with an explicit bound in u, "
+              "the libm error and the spread max - min under a relative-error model of exp, which for f64 applies when max - min <= 700 (beyond about 745 the "
+              "smallest shifted exponential underflows; f64_logsumexp_note, n <= 10000); these provisos are hypotheses of the theorems, and the per-run oracle checks "
+              "the same worst-case bounds against exact rational / 40-digit references on inputs inside them. Tie: the model at Float is compared bit for bit with "
+              "the Rust code on every request (none is implementation-only: asinh / acosh / atanh are spelled with the formulas of Rust std over ln_1p, hypot, sqrt, "
+              "ln; cbrt is the correctly rounded cube root computed exactly; measured identical on 1.2e6 and 1e7 arguments and re-swept every run) - all lengths "
+              "0..40 and random lengths to 1e4 for each of the 11 operator forms of Vector and of Matrix, negation, 29 maps, powi / powf with every special exponent, "
+              "special arguments, threshold bands of exp for the log-domain reductions, panics on length / shape mismatch, zero-sized matrices; exact element-wise "
+              "oracle against the scalar f64 method at every position. The empty slice: logsumexp of no element is f64::NEG_INFINITY (the guard of the repaired "
+              "function, F55; theorem logsumexpE_nil, and the oracle demands it on every run); logmeanexp of no element is undefined and not judged; inputs "
+              "containing +inf or only -inf return NaN and are outside the stated domain. Operands unchanged and negation are definitional in the (pure) model and "
+              "observed by the tie (borrowed operands are echoed and compared)."),
         design="DESIGN.md §6 C04",
         technique="Lean 4 proof (functional induction over the 8-way pattern, decide over translated macro wiring, real analysis for logsumexp) + bit-exact correspondence"),
     "C05": dict(
-        text=("Kernel-checked theorems over any commutative semiring: for each of the four transpose-flag pairs the model of `matmul` returns "
-              "a value iff the inner dimensions agree, of length m*n, whose (i,j) entry is sum_k op(A)[i,k]*op(B)[k,j]; non-conformable or malformed "
-              "operands give a panic; the blocked variant equals the plain one for every block size >= 1 (proved for every scalar type with only "
-              "Add/Mul/Zero by projecting both loop nests onto one cell, so the k-order is identical and the Float instances coincide bit for bit for "
-              "the non-TT flags); xtx = X^T X and symmetric; ROUNDING in the standard model: every entry of matmul / matmul_blocked / xtx / the Dot methods is within gamma_l sum_k|a_ik||b_kj| of the definition; the 16 Dot impls x 4 ownership forms are checked by `decide` over a wiring table regenerated "
-              "from dot.rs on every run. The model is tied bit for bit to the Rust code on all shapes 1..9^3 x flags x block sizes (integer entries, exact "
-              "equality oracle) and random real shapes to 64 (exact dyadic oracle with the rigorous l*2^-52*sum|a||b| bound)."
-              " SOURCE TIE: the naive i/k/j product loops of matmul are regenerated from utils.rs on every run and proved equal to the model loop nest; sessions with aliased operands (same slice / same object on both sides, overlapping views, in-place mutation and re-allocation between calls) are part of the correspondence."
-              " The whole matmul and matmul_blocked functions are likewise regenerated and proved equal to the model (cfg blocks resolved with the default features)."),
+        text=("Kernel-checked theorems about the model of matmul, matmul_blocked, transpose, xtx and the Dot trait. DEFINITION (any commutative semiring): for each "
+              "of the four transpose-flag pairs, on an ra x ca and an rb x cb operand with positive row counts whose inner dimensions after the flags agree, matmul "
+              "returns a value of length m*n whose (i,j) entry is sum_k op(A)[i,k]*op(B)[k,j] (matmul_spec, spelled out on the stored operands as "
+              "matmul_spec_NN/TN/NT/TT), and, stated with the Mathlib Matrix type, matmul (flat A) (flat B) = flat (op A * op B) for all four flag pairs "
+              "(matmul_matrix_NN/TN/NT/TT, xtx_matrix); the same for matmul_blocked with every block size >= 1; xtx = X^T X and symmetric; transpose entry formula. "
+              "EXACT DOMAIN: matmul returns a value if and only if both row counts are positive, divide the operand lengths, and the inner dimensions agree "
+              "(matmul_isSome_iff; matmul_blocked additionally needs block size >= 1); in particular an operand with 0 rows always panics because is_matrix divides "
+              "by the row count, also for a mathematically conformable product such as (2x0).(0x3), while zero columns with positive row counts give the empty or "
+              "all-zero product; the corresponding if-and-only-if statements for Matrix.Matrix, Matrix.Vector (non-empty vector required) and Vector.Matrix on "
+              "well-formed operands, and the panic theorems for non-conformable shapes of all three kinds (dotMM_rejects, dotMV_rejects, dotVM_rejects) and for "
+              "malformed operands. BLOCKED = PLAIN: for every block size >= 1 and every scalar type with only Add/Mul/Zero and no algebraic law the blocked loop nest "
+              "equals the plain one (both loop nests are projected onto one cell and leave the same left fold over k there), hence the two kernels coincide on all "
+              "inputs for the three flag pairs without the both-transposed shortcut, at Float as well; for the pair (true,true) the plain kernel evaluates (B.A)^T "
+              "and multiplies the factors in the other order, so equality is proved under commutativity of the scalar multiplication (every commutative semiring) and "
+              "at f64 it is checked bit for bit by the correspondence and the oracle, not proved. DOT TRAIT: the four Matrix.Matrix methods carry the flag pairs "
+              "(F,F),(T,F),(F,T),(T,T), Matrix.Vector promotes the vector to a column and ignores the flag on it, Vector.Matrix promotes it to a row, Vector.Vector "
+              "is the inner product for all four names; entry formulas dotMM_spec, dotMV_spec, dotVM_spec, dotVV_spec. These are theorems about a hand-written "
+              "interpreter of a wiring table (4 rows, two 4-entry maps, 4 operand kinds x 4 ownership forms = 16 instantiations) that a translator extracts from "
+              "dot.rs with regular expressions on every run and refuses on any change of macro shape; the table facts are checked by decide. xtx, Matrix::new, t_mut "
+              "and to_matrix are hand-modelled. All of these are tied to the Rust code by the bit-exact correspondence only. SOURCE TIE: matmul and matmul_blocked as "
+              "whole functions (cfg blocks resolved with the default features), is_matrix and transpose are regenerated from utils.rs on every run and proved equal "
+              "to the model (SrcTieC05Mut2 with the bridges isMatrix_src and transpose_src). ROUNDING in the standard model fl(a op b) = (a op b)(1+d), |d| <= u: "
+              "every entry of matmul, matmul_blocked, xtx and of the Matrix.Matrix, Matrix.Vector, Vector.Matrix and Vector.Vector methods is within gamma_l * sum_k "
+              "|a_ik||b_kj| of the definition (Rounding3 and dotMV_error, dotVM_error, dotVV_error; idempotent rounding for the constant gamma_l, and an idempotent "
+              "model with u = 2^-53 exists); the link from IEEE binary64 to that model is trusted. CORRESPONDENCE AND ORACLE: the model is compared bit for bit with "
+              "the Rust code on all shapes 1..9^3 x 4 flags x block sizes with integer entries (exact-equality oracle from an independent integer triple loop), "
+              "random real shapes to 64 and the 63/64/65 and m*l*n = 32768 corners (exact dyadic reference with the rigorous bound l*2^-52*sum|a||b|), power-of-two "
+              "scaled data (exact equality and bit-exact equivariance), zeros facing inf and NaN (IEEE class of every entry), every Dot method in all four ownership "
+              "forms, inner products of lengths 8k-1, 8k, 8k+1 up to 4097, shapes with zero dimensions (decided by the oracle), and sessions in which the same slice "
+              "or object is both operands, views of one buffer overlap, operands are mutated in place between identical calls or re-allocated at the same address. "
+              "NOT COVERED BY A THEOREM: bit-identity of the (true,true) blocked and plain kernels at f64, the i32 casts in Matrix::new (exact below 2^31), that the "
+              "four ownership forms share one body (read off the macro, checked by running all four). OPEN REMARK: the panic of a conformable product with a 0-row "
+              "operand lies outside the quantifier of the property (dimensions from 1) and is reported as finding proposal zero-rows."),
         design="DESIGN.md §6 C05",
         technique="Lean 4 proof (loop-nest projection, Finset sums over CommSemiring, decide over translated wiring) + bit-exact correspondence"),
     "C06": dict(
-        text=("Kernel-checked theorems over any field with exp/ln/sqrt abstract: entry formulas of the score (compute_dbeta) and information (compute_ddbeta); the penalty step "
-              "adds alpha*beta_j to components j >= 1 only (intercept unpenalised) and alpha to the information diagonal; for any exact solver one scoring pass leaves beta "
-              "unchanged iff the ridge-penalised score equations hold at mu = g^-1(X beta + offset); the six family tables (link, derivative, variance, deviance terms), "
-              "Gaussian deviance = residual sum of squares and Gaussian fixed points = weighted ridge normal equations; `fit` returns Err iff not converged within the budget "
-              "and on Ok the last two penalised deviances differ relatively by < tolerance; accessor formulas (dispersion, covariance = dispersion * inverse information, "
-              "standard errors, predict = inverse link of x.beta + offset, aic, bic); score, information, deviance, every iterate of the loop and the whole `fit` result (status, coefficients, deviance, information; predictions permuted accordingly) are invariant under any permutation of the observations; with the proved solver correctness the fixed-point and Gaussian normal-equation theorems hold for the model's own `solve` on non-singular information matrices. The deviances equal the textbook unit deviances (Poisson with 0 ln 0 = 0, Bernoulli, Gamma, Exponential, Gaussian) on the valid domain, are >= 0 and vanish iff y = mu (Props/C06Dev). PARTIAL: that the convergence test implies a small score, rounding, and solver correctness (hypothesis; C01) are not proved - "
-              "they are decided per run by the bit-exact tie (all reply fields) plus a 50-digit mpmath stationarity/inference oracle."
-              " Every public method of ExponentialFamily and GLM::set_coef are tied bit for bit and judged by mpmath oracles; theorems: d_inv_link is the derivative of inv_link for all six families, variance(inv_link eta) = d_inv_link eta for the canonical links, penalized_deviance >= deviance with its equality case, set_coef changes only the coefficient vector; object histories (several fits and setters on one object) are compared with fresh twins."
-              " ROUNDING (Props/Rounding7, Rounding8): one scoring step is a perturbed penalised weighted normal system with explicit bounds, and for the canonical families a step that leaves beta unchanged in floating point implies an explicit bound on the exact penalised score."),
+        text=("Kernel-checked theorems over any field with exp/ln/sqrt abstract. Building blocks: entry formulas of the score (compute_dbeta) and of the information "
+              "matrix (compute_ddbeta); the penalty step adds alpha*beta_j to gradient components j >= 1 only (intercept unpenalised) and alpha to every information "
+              "diagonal entry, the intercept entry included (this changes the convergence rate, not the fixed point). Fixed points: for any exact solver one scoring "
+              "pass leaves beta unchanged iff the ridge-penalised score equations hold at mu = g^-1(X beta + offset); for the Gaussian family these are the weighted "
+              "ridge normal equations with unpenalised intercept; with the proved solver correctness both hold for the model of solve itself on regular (SqrtOk and "
+              "LuPivotsNonzero) information matrices. Returned coefficients: for the UNPENALISED Gaussian family every pass is an exact weighted least-squares solve, "
+              "so the coefficients fit returns satisfy the weighted normal equations whatever the status (gaussian_pass_solves, gaussian_fit_normal_equations); for "
+              "ridge-Gaussian fits and the five other families no theorem speaks about the returned iterate - that the stopping test implies a small score is not "
+              "proved and is decided per run by the oracle. What fit returns and stores (fit_last_pass): the returned coefficients are beta0 - s for the start beta0 "
+              "and the solver step s of the last pass, while the stored deviance is the family deviance at inv_link(X beta0 + offset) and the stored information is "
+              "the unpenalised information at the same point, i.e. both are ONE SCORING STEP STALE relative to the returned coefficients (the clause deviance at the "
+              "fitted means holds up to that last step; the oracle bounds the gap by the last-step bound and observes at most about 36 * tolerance * deviance, on "
+              "ridge fits). Status: fit returns Err iff the budget is exhausted without convergence; on Ok the last two penalised deviances differ relatively by < "
+              "tolerance with a finite NON-ZERO previous value (at a previous deviance of exactly 0 the IEEE quotient is inf or NaN, the test is false and the fit "
+              "ends in Err; the model spells this case out so that no x/0 = 0 convention is used). Accessors: dispersion = deviance/(n-p) with n = round(sum w) or 1, "
+              "a panic for n < p; covariance = dispersion * invert(information) and, with the shared invertMatrix on a regular information matrix, information * "
+              "covariance = dispersion * I (covariance_isInverse); standard errors = sqrt of its diagonal; predict = inverse link of x.beta + offset; aic, bic (these "
+              "accessor statements and the six family tables are definitional unfoldings, kept as required but not headline results). Invariance: score, information, "
+              "deviance, the start value, every iterate of the loop and the whole fit result (status, coefficients, deviance, information; predictions permuted "
+              "accordingly) are invariant under any permutation of the observations. Families over the reals: the deviances equal the textbook unit deviances on the "
+              "valid domain (Poisson with 0 ln 0 = 0, Bernoulli with 0/1 responses, Gamma, Exponential, Gaussian = residual sum of squares), are >= 0 and vanish iff "
+              "y = mu (Props/C06Dev); d_inv_link is the derivative of inv_link for all six families; variance(inv_link eta) = d_inv_link eta for the canonical links "
+              "(identity, logit, log for Poisson and QuasiPoisson) and the working weight is 1 for Gamma/Exponential with the log link; penalized_deviance = deviance "
+              "+ alpha*||beta_1..||_2 >= deviance for alpha >= 0 with equality iff alpha = 0 or the penalised coefficients vanish (the norm is not squared in the "
+              "source; it only drives the stopping test; modelled as it is); set_coef changes only the coefficient vector; the IRLS start values are the textbook "
+              "ones at eta = 0 divided by n. TIE: every reply field of fit and its accessors, score, every public method of ExponentialFamily, GLM::set_coef at every "
+              "position of the object life cycle, two-fit and k-fit object histories with setters in between (compared bit for bit with fresh twins) are executed "
+              "through the real crate and the model at Float and compared bit for bit; the 18 link/variance arms and 8 deviance closures are additionally regenerated "
+              "from the source and proved equal to the model by rfl. ORACLE (50-digit mpmath, inside the quantifier 1e-15 <= tol <= 1e-4, n > p+1, condition number "
+              "<= 1e13): on Ok the Newton decrement of the returned coefficients is <= C * tol * penalised deviance + rounding floor; Gaussian against an independent "
+              "weighted ridge solve; deviance, dispersion (exact, with n = round of the 8-way sum), covariance and standard errors against dispersion * inverse "
+              "WEIGHTED information at the returned beta, predictions, score, aic (exact), bic; permuted and power-of-two rescaled re-runs; outside the quantifier "
+              "only the exact clauses and the tie apply. PARTIAL / NOT PROVED: that the deviance-based stopping test implies a small score; rounding of the iteration "
+              "(Props/Rounding7, Rounding8 analyse one scoring step in the standard model and show that a step leaving beta unchanged IN FLOATING POINT bounds the "
+              "exact penalised score for the canonical families - a hypothesis that is not the stopping test of the code, and only for p >= 2); solver and inverse "
+              "correctness only under Regular; the one-step staleness of the stored deviance and information. OPEN FINDING (key glm:weights:unweighted-deviance in "
+              "known_findings.txt, reproduced on every run as KNOWN-FINDING; the oracle emits the key only when the stored deviance equals the unweighted family "
+              "deviance and differs from the weighted one, any other deviance discrepancy is a violation; dependent accessors are judged against the stored "
+              "deviance): with prior weights the stored deviance is the unweighted sum while score, information and n = round(sum w) are weighted, so dispersion and "
+              "standard errors of the Gaussian, QuasiPoisson and Gamma families are inconsistent with the weights."),
         design="DESIGN.md §6 C06",
         technique="Lean 4 proof (entry-wise sum algebra, fixed-point characterisation, induction over scoring iterations, permutation of Finset sums) + bit-exact correspondence"),
     "C07": dict(
-        text=("Kernel-checked theorems: the model of `trapz` equals Mathlib's `trapezoidal_integral` for every n, hence is exact for affine integrands, linear, "
-              "antisymmetric in the limits and obeys Mathlib's C2 error bound |b-a|^3 max|f''|/(12 n^2); quad5 is linear/antisymmetric for any table and, for the "
-              "actual doubles of the node/weight tables regenerated from the source on every run, its odd moments are exactly 0 and even moments up to degree 18 "
-              "are within 1e-16 of 2/(d+1) (exact rational arithmetic on the decoded bit patterns); Romberg levels 1-3 are the trapezoid/Simpson/Boole rules with "
-              "cubic and quintic exactness for every tolerance; sampled `trapezoid` equals the piecewise-linear integral, is additive and agrees with the dx form on "
-              "uniform grids. Romberg for EVERY level count: the model computes the textbook tableau, is linear, antisymmetric in the limits and vanishes for a = b, never exits early at eps = 0, its column 0 is the trapezoid rule with 2^n panels, and with k levels it integrates every polynomial of degree <= 2k-1 exactly (Euler-Maclaurin for monomials from Mathlib's Bernoulli/Faulhaber results + Richardson elimination). quad5 on ARBITRARY intervals: for every polynomial of degree <= 19, |quad5 - integral| <= 1e-16 |xr| sum|c_k|(|xm|+|xr|)^k with a genuine interval integral, exact when the shifted polynomial is odd (Props/C07Quad). PARTIAL: the order-of-tolerance clause for smooth integrands and all rounding are decided by the bit-exact tie plus an "
-              "exact-rational/mpmath oracle (including the exactly decided stop rule), not by proof."
-              " ROUNDING in the standard model (Props/Rounding5): accumulation error of trapz, trapezoid, quad5 and the Romberg first column bounded by gamma_k sum|w_i f(x_i)| with k read off the operation order."),
+        text=("Kernel-checked theorems about the model of src/integrate. TRAPZ: for every n >= 1 the model equals the Mathlib trapezoidal_integral, hence obeys the "
+              "Mathlib C2 error bound |b-a|^3 max|f second derivative|/(12 n^2) against a genuine interval integral, is exact for affine integrands (closed form), "
+              "additive, homogeneous, antisymmetric in the limits and 0 for a = b; n = 0 is outside the quantifier (the code divides by zero and returns inf or NaN; "
+              "the algebraic identities hold there only through x/0 = 0, stated by trapz_zero_panels). QUAD5: linear and antisymmetric for any table; for the actual "
+              "doubles of the node/weight tables, regenerated from the source on every run and decoded from their bit patterns, odd moments are exactly 0 and even "
+              "moments up to degree 18 are within 1e-16 of 2/(d+1), degree 20 is not integrated exactly; on arbitrary intervals, for every polynomial of degree <= "
+              "19, |quad5 - integral| <= 1e-16 |xr| sum|c_k|(|xm|+|xr|)^k with a genuine interval integral, exact when the shifted polynomial is odd. ROMBERG, level "
+              "budgets k = 1..31 (the property needs 2..20; nmax = 0 is the panic, nmax > 31 is not modelled and never compared): the model computes the textbook "
+              "tableau R; its column 0 is the trapezoid rule with 2^n panels; for EVERY tolerance the value returned is the diagonal entry R[s][s] of the first level "
+              "2 <= s < k whose consecutive estimates agree, or R[k-1][k-1] when no test fires (romberg_stop_level), and it is the exact integral (closed form) of "
+              "every polynomial of degree <= 2s+1 for that level s (romberg_exact_at_stop_level). Consequently: at eps = 0, and whenever no early exit happens (k "
+              "levels computed), k levels integrate every polynomial of degree <= 2k-1 exactly (Euler-Maclaurin for monomials from the Mathlib Bernoulli/Faulhaber "
+              "results plus Richardson elimination); after an early exit at eps > 0 only degree 2s+1 >= 5 is guaranteed and the clause that holds is the tolerance "
+              "clause - kernel-checked witness inside the quantifier: romberg(1 + x^6/100, 0, 1, eps = 1e-3, 5 levels) = 7691/7680 while the integral is 701/700 "
+              "(error 3.7e-6 < eps; reproduced on the Rust code). Levels 1, 2, 3 are the trapezoid, Simpson and Boole rules for every tolerance. Antisymmetry in the "
+              "limits and a = b -> 0 hold for every tolerance; additivity and homogeneity in the integrand hold at eps = 0 and for the tableau R, and additivity is "
+              "FALSE at eps > 0 (kernel-checked witness: the summands stop at levels 2 and 3, the sum at level 3). SAMPLED TRAPEZOID: the result is the sum of the "
+              "panel areas, each panel area is the interval integral of the linear interpolant (any abscissae, also decreasing or repeated), and for strictly "
+              "increasing abscissae the result is the integral of the piecewise-linear interpolant over [x_0, x_last]; additive over concatenation at a shared "
+              "sample; the x form equals the dx form on uniform grids; no abscissae and no dx means dx = 1; the three panics (length mismatch, dx together with x, no "
+              "samples and no abscissae) are theorems. SOURCE TIE: trapz as a whole, the quad5 fragments and tables, the closures of trapezoid are regenerated from "
+              "the source and proved equal to the hand model; romberg is hand-modelled (column 0 interleaved with the sweep, same values for a pure integrand). "
+              "PARTIAL, decided by the bit-exact tie plus an exact-rational/mpmath oracle and not by proof: all rounding relative to the exact integral "
+              "(Props/Rounding5 bounds only the accumulation error of trapz, trapezoid, quad5, Romberg r[0][0] and one first-column step against the rule sum at the "
+              "computed nodes, in the standard model; the Richardson sweep is not covered); the order-of-tolerance clause for smooth integrands, for which the oracle "
+              "decides exactly that every eps > 0 run returns its own diagonal entry at the first level where consecutive estimates agree in sign and magnitude, and "
+              "checks |error| <= 4 eps max(1,|I|) only on the narrow-interval half of the smooth-catalogue cases (on wide intervals false convergence by aliasing is "
+              "inherent to the method). Polynomial-exactness theorems other than those named above conclude closed-form antiderivative differences, not integrals."),
         design="DESIGN.md §6 C07",
         technique="Lean 4 proof (Mathlib trapezoidal rule transfer, exact dyadic table arithmetic, ring identities) + translated tables + bit-exact correspondence"),
     "C08": dict(
-        text=("Kernel-checked theorems over any field of characteristic zero / linear order: Welford's aggregate after any list is (n, mean, sum of squared deviations), "
-              "hence mean (through the 8-way unrolled sum), welford_mean, var, sample_var, std, sample_std equal their definitions and the two means agree; the four "
-              "covariance algorithms (two-pass, sample, repaired one-pass and online) equal the textbook (sample) covariance and agree; shift invariance and "
-              "quadratic/bilinear scaling; argmin/argmax return the first index of an extremum (guard: data within the f64::MAX/MIN seeds, the out-of-guard behaviour "
-              "is a separate theorem); min/max equal List.minimum/maximum on NaN-free input; Matrix argmin = (i / ncols, i % ncols); histogram centres are midpoints of "
-              "consecutive edges; rounding bounds in the standard model for both mean algorithms (mean within gamma_n, Welford mean ~ (n/2+6.5) u max|x|), for the two-pass covariance/variance (gamma_(n+5) times an exactly shift-invariant centred scale plus second-order terms in the means) and for the Welford M2 / var (whose bound provably must contain a mean term). PARTIAL: rounding of the one-pass and online covariance is decided by the bit-exact tie plus an exact-rational oracle with a "
-              "condition-number-scaled bound, not by proof."
-              " ROUNDING (Props/Rounding5): forward error bound of the one-pass covariance exhibiting its cancellation term; accumulation bound for the online algorithm."
-              " The online covariance is bounded in full (Props/Rounding6 online_error)."),
+        text=("Kernel-checked theorems over any field of characteristic zero / any linear order, each carrying exactly the size guard under which the statistic is "
+              "defined. For n >= 1: the Welford aggregate after any list is (n, mean, sum of squared deviations), hence mean (through the 8-way unrolled sum, proved "
+              "equal to the plain sum), welford_mean, var and std equal their definitions (std is var under the square root of the scalar), the two means agree, the "
+              "population covariance equals sum (x-xbar)(y-ybar)/n, and var is unchanged by adding a constant. For n >= 2: sample_var, sample_std and the sample "
+              "covariance equal their definitions with divisor n-1, the repaired one-pass and online algorithms equal the sample covariance (all algorithms agree), "
+              "and all four covariance functions are unchanged by adding constants. Quadratic / bilinear scaling of var and the two-pass covariances. Below the "
+              "guards the code divides 0 by 0: theorem degenerate_sizes states the quotient formed at n = 0 (mean, var, covariance) and n = 1 (the four sample "
+              "statistics) - NaN in f64, compared by the correspondence check, 0 in a Lean field by convention, which is why unguarded (_total) versions of the "
+              "identities also hold and are kept as internal lemmas only; theorem panicking_sizes states the n = 0 panics of sample_var, sample_covariance and the "
+              "one-pass algorithm (usize underflow, overflow checks on) and that the online algorithm returns 0/(0-1) instead. argmin / argmax return the first index "
+              "of an extremum (guard: every datum within the f64::MAX / f64::MIN seeds, true of all finite doubles; the out-of-guard behaviour, argmin [inf, MAX] = "
+              "0, is a separate theorem); min / max equal List.minimum / List.maximum on NaN-free non-empty input; Matrix argmin / argmax = (i / ncols, i % ncols) "
+              "and panic for ncols = 0; histogram centres are the midpoints of consecutive edges for arbitrary edges. Signed zeros are one point of a linear order: "
+              "which zero min / max return (not compared: LLVM minnum / maxnum may return either) and that argmin / argmax treat +0 and -0 as a tie are decided by "
+              "oracle and correspondence only. CALL FORMS: every statistic is run as free function and as Vector method, the seven macro-generated Matrix reductions "
+              "(mean, var, sample_var, std, sample_std, min, max) on 1 x n, n x 1 and non-square matrices, Matrix argmin / argmax on all shapes; the wrappers are "
+              "one-line forwards and share the model of the free function. SOURCE TIE: the loops and iterator chains of moments.rs, covariance.rs, order.rs, hist.rs "
+              "are regenerated from the source and proved equal to the hand model; the unrolled utils::sum is NOT (its name is mapped to the hand model sum8; body "
+              "and tail are tied by the bit-exact correspondence on all lengths 0..1e4 incl. every residue mod 8). ROUNDING in the standard model (all reals, no "
+              "overflow or underflow; its concrete instances are toy roundings and binary64 is linked to it only informally): bounds are proved for both mean "
+              "algorithms (gamma_n; Welford about (n/2+6.5) u max|x|), the two-pass covariance / variance (gamma_(n+5) times an exactly shift-invariant centred scale "
+              "plus second-order terms in the means), the Welford M2 / var / sample_var (whose bound provably must contain a mean term, so exact first-order shift "
+              "invariance is impossible for Welford: the oracle tolerance for shifted data accordingly grows with the offset as n eps kappa), the one-pass covariance "
+              "(exhibiting its cancellation term) and the online covariance; there is NO rounding theorem for std, sample_std and hist_bin_centers; several of these "
+              "rounding theorems still carry the guard 1 <= n (or none) where 2 <= n (1 <= n) is needed and speak about x/0 = 0 at those sizes. The rounding clause "
+              "of the property (within the bound of a numerically stable algorithm; unchanged by a constant shift even when the mean is far larger than the spread) "
+              "is therefore DECIDED by the bit-exact tie plus an exact-rational oracle with the condition-number-scaled bound 200 n eps kappa (constant 100 times the "
+              "largest ratio observed), exact power-of-two scaling families up to 2^500 and exact-shift families, on data with |x| in [1e-100, 1e100] or 0 for the "
+              "moment statistics and the full finite range for the order statistics; at the largest offsets (kappa about 1e8) and n above about 50 that bound is "
+              "wider than the statistic itself."),
         design="DESIGN.md §6 C08",
         technique="Lean 4 proof (loop invariants by induction over the data list, field_simp/ring) + bit-exact correspondence + exact-rational oracle"),
     "C12": dict(
